@@ -97,6 +97,7 @@ type FuncContract struct {
 	Loops     map[int]*LoopContract
 	CallGhost []CallGhost
 	RetGhost  []GhostUpdate
+	EntryGhost []GhostUpdate
 	Pure      bool
 	MayPanic  bool
 	Line      int
@@ -170,7 +171,7 @@ func parseContractFile(path, pkg string) (*ContractFile, error) {
 	// join continuation lines: a line that does not start with a keyword continues the previous one
 	kw := map[string]bool{"func": true, "requires": true, "ensures": true, "assigns": true, "ghost": true, "ghostparam": true,
 		"loop": true, "call": true, "trusted": true, "pred": true, "lemma": true, "pure": true, "maypanic": true,
-		"guarded_by": true, "return": true, "note": true}
+		"guarded_by": true, "return": true, "note": true, "entry": true}
 	var joined []rawLine
 	for _, r := range raws {
 		first := r.text
@@ -317,6 +318,16 @@ func parseContractFile(path, pkg string) (*ContractFile, error) {
 				return nil, fail(err)
 			}
 			cur.CallGhost = append(cur.CallGhost, CallGhost{Callee: cs, Ordinal: ord, Upd: u})
+		case "entry":
+			k, body := splitWord(rest)
+			if k != "ghost" || cur == nil {
+				return nil, fail(fmt.Errorf("expected 'entry ghost x = e'"))
+			}
+			u, err := parseGhostUpdate(body)
+			if err != nil {
+				return nil, fail(err)
+			}
+			cur.EntryGhost = append(cur.EntryGhost, u)
 		case "return":
 			k, body := splitWord(rest)
 			if k != "ghost" || cur == nil {
